@@ -880,6 +880,10 @@ pub fn one_run(seed: u64, run: u64, stats: &mut Stats) {
     stats.inc(&format!("c17.mode.{}", plan.mode.name()));
     stats.add("c17.events", plan.events.len() as u64);
     let want_sample = run < 3;
+    crate::report::inflight_note(|| {
+        let f = Fail { invariant: "process-death", step: 0, observed: "the process died while executing this plan".into(), expected: "alive".into(), panic: None };
+        replay_doc("C17", seed, run, &plan, &f)
+    });
     match execute(&plan, Some(stats), want_sample) {
         Ok(log) => {
             stats.add("c17.calls", log.calls);
@@ -1041,7 +1045,6 @@ pub fn replay(doc: &Json) -> i32 {
             } else {
                 println!("replay: a violation occurs but differs from the recorded one (recorded: [{}] step {} observed {})", want_inv, want_step, want_obs);
             }
-            println!("VIOLATION property={} replay=(replayed)", property);
             1
         }
     }
